@@ -198,3 +198,14 @@ pub assume_specification<'a>[ <core::str::Chars<'a> as Iterator>::count ](c: cor
 pub assume_specification[ String::as_bytes ](s: &String) -> (r: &[u8]) ensures r@ == str_bytes(s@);
 pub assume_specification<T>[ Option::<T>::or ](a: Option<T>, b: Option<T>) -> (r: Option<T>) ensures r == (if a is Some { a } else { b });
 pub assume_specification<T: core::ops::Deref>[ Option::<T>::as_deref ](o: &Option<T>) -> (r: Option<&T::Target>) ensures (r is Some) == (o is Some);
+// generic over core::str::pattern::Pattern (unstable trait name, hence #![feature(pattern)] in the unit headers): total, results unconstrained
+#[verifier::allow(undeclared_external_trait)]
+pub assume_specification<'a, P: core::str::pattern::Pattern>[ str::trim_end_matches::<P> ](s: &'a str, p: P) -> (r: &'a str) where for<'b> P::Searcher<'b>: core::str::pattern::ReverseSearcher<'b>;
+#[verifier::allow(undeclared_external_trait)]
+pub assume_specification<'a, P: core::str::pattern::Pattern>[ str::trim_start_matches::<P> ](s: &'a str, p: P) -> (r: &'a str);
+#[verifier::allow(undeclared_external_trait)]
+pub assume_specification<P: core::str::pattern::Pattern>[ str::starts_with::<P> ](s: &str, p: P) -> (r: bool);
+#[verifier::allow(undeclared_external_trait)]
+pub assume_specification<P: core::str::pattern::Pattern>[ str::ends_with::<P> ](s: &str, p: P) -> (r: bool) where for<'b> P::Searcher<'b>: core::str::pattern::ReverseSearcher<'b>;
+#[verifier::allow(undeclared_external_trait)]
+pub assume_specification<P: core::str::pattern::Pattern>[ str::contains::<P> ](s: &str, p: P) -> (r: bool);
